@@ -173,3 +173,186 @@ Proof.
   - exact fmt_go_eq.
   - intros s H. unfold numericC. rewrite (classify_slash s H). reflexivity.
 Qed.
+
+(** * Every finite binary64 value is a number of the executable strconv model: its text
+    (shortest candidate that reads back, by construction of the search; else the exact
+    expansion, which [round64_pos] returns unchanged) is a clean token that reads back. *)
+From GT Require Import Proofs.NewickFmt Proofs.NewickRound64.
+Local Open Scope Z_scope.
+
+Definition sgn_str (n : Z) : string := if n <? 0 then "-"%string else ""%string.
+
+Lemma shortest_reads : forall fuel p k n d l j,
+    shortest_from fuel p k n d = Some (l, j) -> 0 < l /\ reads l j n d = true.
+Proof.
+  induction fuel; intros p k n d l j H; [discriminate|].
+  cbn [shortest_from] in H.
+  destruct (strip10 20 (if 0 <=? k - p + 1 then n / (d * 10 ^ (k - p + 1)) else n * 10 ^ (- (k - p + 1)) / d) (k - p + 1)) as [l1 j1].
+  destruct (strip10 20 ((if 0 <=? k - p + 1 then n / (d * 10 ^ (k - p + 1)) else n * 10 ^ (- (k - p + 1)) / d) + 1) (k - p + 1)) as [l2 j2].
+  destruct ((0 <? l1) && reads l1 j1 n d)%bool eqn:E1;
+    destruct ((0 <? l2) && reads l2 j2 n d)%bool eqn:E2; cbn [andb] in H.
+  - apply andb_true_iff in E1. destruct E1 as [E1a E1b]. apply Z.ltb_lt in E1a.
+    apply andb_true_iff in E2. destruct E2 as [E2a E2b]. apply Z.ltb_lt in E2a.
+    repeat break_match_hyp; inversion H; subst; auto.
+  - apply andb_true_iff in E1. destruct E1 as [E1a E1b]. apply Z.ltb_lt in E1a.
+    inversion H; subst; auto.
+  - apply andb_true_iff in E2. destruct E2 as [E2a E2b]. apply Z.ltb_lt in E2a.
+    inversion H; subst; auto.
+  - eapply IHfuel; eassumption.
+Qed.
+
+Lemma numch_num_char : forall s, forall_chars numch s = true -> forall_chars num_char s = true.
+Proof.
+  intros s H. eapply forall_chars_impl; [|exact H]. intros c Hc. apply numch_plain in Hc. tauto.
+Qed.
+
+(** a pair that reads back gives a number of the model *)
+Lemma numokC_pair : forall x l j,
+    Qnum (Qred x) <> 0 -> 0 < l ->
+    reads l j (Z.abs (Qnum (Qred x))) (Zpos (Qden (Qred x))) = true ->
+    fmt_go x = (sgn_str (Qnum (Qred x)) ++ fmt_digits l j)%string ->
+    numokC x = true.
+Proof.
+  intros x l j Hn Hl Hr Hf. unfold numokC. pose proof (fmt_go_chars x) as Hch. rewrite Hf in *.
+  unfold sgn_str in *.
+  unfold reads in Hr. destruct (dec_round l j) as [r|] eqn:Er; [|discriminate].
+  apply Qeq_bool_iff in Hr.
+  assert (Hne : String.eqb (append (if (Qnum (Qred x) <? 0)%Z then "-"%string else ""%string) (fmt_digits l j)) ""%string = false).
+  { destruct (fmt_digits_head l j Hl) as [c [r0 [Hb _]]]. rewrite Hb.
+    destruct (Qnum (Qred x) <? 0); reflexivity. }
+  rewrite Hne. rewrite (numch_num_char _ Hch).
+  rewrite (numericC_fmt _ l j r Hl Er). rewrite parse_numC_fmt by assumption. rewrite Er.
+  cbn [negb andb]. apply Qeq_bool_iff.
+  apply Qeq_trans with (Qred x); [|apply Qred_correct]. destruct (Qred x) as [n d]. cbn [Qnum Qden] in *.
+  rewrite Pos2Z.id in Hr. unfold neg_q.
+  destruct (n <? 0) eqn:En.
+  - apply Z.ltb_lt in En. rewrite Hr. unfold Qeq, Qopp. simpl. lia.
+  - apply Z.ltb_ge in En. rewrite Hr. unfold Qeq. simpl. lia.
+Qed.
+
+Lemma pow2_divisor : forall m b, (0 <= m)%Z -> 0 < b -> (b | 2 ^ m) -> b = 2 ^ Z.log2 b.
+Proof.
+  intros m b Hm. revert b. pattern m. apply natlike_ind; [| |exact Hm].
+  - intros b Hb Hdiv. change (2 ^ 0) with 1 in Hdiv.
+    apply Z.divide_1_r_nonneg in Hdiv; [subst; reflexivity|lia].
+  - intros m' Hm' IH b Hb Hdiv. rewrite Z.pow_succ_r in Hdiv by assumption.
+    destruct (Z.even b) eqn:Ev.
+    + apply Z.even_spec in Ev. destruct Ev as [c Hc]. subst b.
+      apply Z.mul_divide_cancel_l in Hdiv; [|lia].
+      assert (Hc : 0 < c) by lia.
+      rewrite (Z.log2_double c Hc). rewrite Z.pow_succ_r by apply Z.log2_nonneg.
+      rewrite <- (IH c Hc Hdiv). reflexivity.
+    + apply IH; [exact Hb|].
+      apply Znumtheory.Gauss with 2; [exact Hdiv|].
+      apply Znumtheory.rel_prime_sym. apply Znumtheory.prime_rel_prime; [exact Znumtheory.prime_2|].
+      intros [c Hc]. subst b. rewrite Z.even_mul in Ev. simpl in Ev. rewrite orb_true_r in Ev. discriminate.
+Qed.
+
+(** the exact expansion of a representable dyadic reads back *)
+Lemma exact_reads : forall n d k s t,
+    0 < n -> 0 < d -> 0 < k < 2 ^ 53 -> 0 <= s -> 0 <= t ->
+    n * 2 ^ s = k * d * 2 ^ t -> -1074 <= t - s <= 971 ->
+    d = 2 ^ Z.log2 d ->
+    let '(l, j) := exact_pair n d in 0 < l /\ reads l j n d = true.
+Proof.
+  intros n d k s t Hn Hd Hk Hs Ht Hrep HE Hpow. unfold exact_pair.
+  replace (d =? 2 ^ Z.log2 d) with true by (symmetry; apply Z.eqb_eq; exact Hpow).
+  set (u := Z.log2 d) in *. assert (Hu : 0 <= u) by apply Z.log2_nonneg.
+  assert (H5 : 0 < 5 ^ u) by (apply Z.pow_pos_nonneg; lia).
+  assert (H10 : 10 ^ u = 2 ^ u * 5 ^ u) by (change 10 with (2 * 5); apply Z.pow_mul_l).
+  split; [apply Z.mul_pos_pos; assumption|].
+  unfold reads, dec_round.
+  destruct (0 <=? - u) eqn:Eu.
+  - apply Z.leb_le in Eu. assert (u = 0) by lia.
+    assert (Hd1 : d = 1) by (rewrite Hpow, H; reflexivity).
+    assert (Hl : (n * 5 ^ u * 10 ^ - u)%Z = n) by (rewrite H; simpl; lia). rewrite Hl.
+    assert (Hrep1 : n * 2 ^ s = k * 1 * 2 ^ t) by (rewrite Hrep, Hd1; ring).
+    destruct (round64_exact n 1 k s t Hn ltac:(lia) Hk Hs Ht Hrep1 HE) as [r [Hr Hq]].
+    rewrite Hr. apply Qeq_bool_iff. rewrite Hq. rewrite Hd1. reflexivity.
+  - apply Z.leb_gt in Eu.
+    replace (- - u) with u by lia.
+    assert (Hp10 : 0 < 10 ^ u) by (apply Z.pow_pos_nonneg; lia).
+    assert (Hrep1 : n * 5 ^ u * 2 ^ s = k * 10 ^ u * 2 ^ t).
+    { rewrite H10. rewrite Hpow in Hrep. replace (n * 5 ^ u * 2 ^ s) with (n * 2 ^ s * 5 ^ u) by ring.
+      rewrite Hrep. ring. }
+    destruct (round64_exact (n * 5 ^ u) (10 ^ u) k s t ltac:(lia) Hp10 Hk Hs Ht Hrep1 HE) as [r [Hr Hq]].
+    rewrite Hr. apply Qeq_bool_iff. rewrite Hq. unfold Qeq. simpl.
+    rewrite !Z2Pos.id by lia. rewrite H10. rewrite Hpow. ring.
+Qed.
+
+Lemma Qred_den_divides : forall a (b : positive), (Zpos (Qden (Qred (a # b))) | Zpos b).
+Proof.
+  intros a b. unfold Qred.
+  pose proof (Z.ggcd_correct_divisors a (Zpos b)) as H.
+  pose proof (Z.ggcd_gcd a (Zpos b)) as Hg.
+  destruct (Z.ggcd a (Zpos b)) as [g [aa bb]]. simpl in *. destruct H as [_ Hb].
+  assert (0 <= g) by (subst g; apply Z.gcd_nonneg).
+  assert (0 < bb) by nia.
+  rewrite Z2Pos.id by assumption. exists g. lia.
+Qed.
+
+Theorem numokC_repr : forall x k s t m,
+    0 <= k < 2 ^ 53 -> 0 <= s -> 0 <= t ->
+    Z.abs (Qnum x) * 2 ^ s = k * Zpos (Qden x) * 2 ^ t ->
+    -1074 <= t - s <= 971 -> 0 <= m -> Zpos (Qden x) = 2 ^ m ->
+    numokC x = true.
+Proof.
+  intros x k s t m Hk Hs Ht Hrep HE Hm Hden.
+  pose proof (Qred_correct x) as Hq.
+  destruct x as [a b]. cbn [Qnum Qden] in *.
+  pose proof (Qred_den_divides a b) as Hdiv.
+  remember (Qred (a # b)) as q' eqn:Eq'. destruct q' as [n d].
+  unfold Qeq in Hq. cbn [Qnum Qden] in *.
+  destruct (Z.eq_dec n 0) as [Hn0|Hn0].
+  - (* zero *)
+    unfold numokC, fmt_go. rewrite <- Eq'. cbn [Qnum]. subst n. cbn.
+    apply Qeq_bool_iff. unfold Qeq. simpl. lia.
+  - assert (Hd2 : Zpos d = 2 ^ Z.log2 (Zpos d)).
+    { apply (pow2_divisor m); [exact Hm|lia|]. rewrite <- Hden. exact Hdiv. }
+    assert (Hrep' : Z.abs n * 2 ^ s = k * Zpos d * 2 ^ t).
+    { assert (Habs : Z.abs n * Zpos b = Z.abs a * Zpos d) by (pose proof (f_equal Z.abs Hq) as HH; rewrite !Z.abs_mul in HH; simpl in HH; exact HH).
+      apply (Z.mul_reg_r _ _ (Zpos b)); [lia|].
+      replace (Z.abs n * 2 ^ s * Zpos b) with (Z.abs n * Zpos b * 2 ^ s) by ring.
+      rewrite Habs. replace (Z.abs a * Zpos d * 2 ^ s) with (Z.abs a * 2 ^ s * Zpos d) by ring.
+      rewrite Hrep. ring. }
+    assert (Hk0 : 0 < k).
+    { destruct (Z.eq_dec k 0); [|lia]. subst k. pose proof (Z.pow_pos_nonneg 2 s ltac:(lia) Hs). nia. }
+    pose proof (exact_reads (Z.abs n) (Zpos d) k s t ltac:(lia) ltac:(lia) ltac:(lia) Hs Ht Hrep' HE Hd2) as Hex.
+    assert (Hpair : exists l j, 0 < l /\ reads l j (Z.abs n) (Zpos d) = true /\
+                                fmt_go (a # b) = (sgn_str n ++ fmt_digits l j)%string).
+    { unfold fmt_go. rewrite <- Eq'. cbn [Qnum Qden].
+      replace (n =? 0) with false by (symmetry; apply Z.eqb_neq; exact Hn0).
+      destruct (shortest_from 17 1 (log10_floor (Z.abs n) (Zpos d)) (Z.abs n) (Zpos d)) as [[l j]|] eqn:Es.
+      - destruct (shortest_reads _ _ _ _ _ _ _ Es) as [Hl Hr]. exists l, j. auto.
+      - destruct (exact_pair (Z.abs n) (Zpos d)) as [l j]. destruct Hex as [Hl Hr]. exists l, j. auto. }
+    destruct Hpair as [l [j [Hl [Hr Hf]]]].
+    apply (numokC_pair (a # b) l j); try rewrite <- Eq'; cbn [Qnum Qden]; assumption.
+Qed.
+
+(** the value  k * 2^E *)
+Definition b64 (k E : Z) : Q :=
+  if 0 <=? E then inject_Z (k * 2 ^ E) else Qmake k (Z.to_pos (2 ^ (- E))).
+
+Theorem numokC_b64 : forall k E, Z.abs k < 2 ^ 53 -> -1074 <= E <= 971 -> numokC (b64 k E) = true.
+Proof.
+  intros k E Hk HE. unfold b64. destruct (0 <=? E) eqn:EE.
+  - apply Z.leb_le in EE.
+    apply (numokC_repr _ (Z.abs k) 0 E 0); try lia.
+    + cbn [Qnum Qden inject_Z]. rewrite Z.abs_mul. rewrite (Z.abs_eq (2 ^ E)) by (apply Z.pow_nonneg; lia). ring.
+    + reflexivity.
+  - apply Z.leb_gt in EE.
+    assert (0 < 2 ^ (- E)) by (apply Z.pow_pos_nonneg; lia).
+    apply (numokC_repr _ (Z.abs k) (- E) 0 (- E)); try lia.
+    + cbn [Qnum Qden]. rewrite Z2Pos.id by assumption. ring.
+    + cbn [Qden]. rewrite Z2Pos.id by assumption. reflexivity.
+Qed.
+
+Corollary numokC_dyadic : forall k m, Z.abs k < 2 ^ 53 -> 0 <= m <= 1074 ->
+    numokC (Qmake k (Z.to_pos (2 ^ m))) = true.
+Proof.
+  intros k m Hk Hm.
+  assert (0 < 2 ^ m) by (apply Z.pow_pos_nonneg; lia).
+  apply (numokC_repr _ (Z.abs k) m 0 m); try lia.
+  - cbn [Qnum Qden]. rewrite Z2Pos.id by assumption. ring.
+  - cbn [Qden]. rewrite Z2Pos.id by assumption. reflexivity.
+Qed.
